@@ -172,6 +172,81 @@ theorem C20_sharpe_scale_invariant (o : Orc) (interval duration rf c : Rat) (hc 
 
 /-! ### alpha / beta -/
 
+theorem Metrics.allSome_length (l : List (Option Rat)) (m : List Rat) (h : allSome l = some m) : l.length = m.length := by
+  induction l generalizing m with
+  | nil => simp [allSome] at h; subst h; rfl
+  | cons a l ih =>
+    cases a with
+    | none => simp [allSome] at h
+    | some a =>
+      simp only [allSome, Option.map_eq_some_iff] at h
+      obtain ⟨m', hm', rfl⟩ := h
+      simp [ih m' hm']
+
+/-- **beta = Σ(p − p̄)(b − b̄) / Σ(b − b̄)²** over two return series of equal length ≥ 2 (the `n − 1` of `np.cov` cancels);
+    no oracle, no duration: beta does not depend on the APRs -/
+theorem Metrics.betaOf_formula (p b : List Rat) (hlen : p.length = b.length) (hn : 2 ≤ b.length) (hvar : devProd b b ≠ 0) :
+    betaOf p b = .ok (some (devProd p b / devProd b b)) := by
+  have hn1 : ((b.length : Rat) - 1) ≠ 0 := by
+    have : (2 : Rat) ≤ (b.length : Rat) := by exact_mod_cast hn
+    intro h; linarith
+  have hc1 : cov p b = .ok (devProd p b / ((b.length : Rat) - 1)) := by
+    unfold cov
+    rw [if_neg (by simp [hlen]), if_neg (by omega), hlen]
+  have hc2 : cov b b = .ok (devProd b b / ((b.length : Rat) - 1)) := by
+    unfold cov
+    rw [if_neg (by simp), if_neg (by omega)]
+  have hne : devProd b b / ((b.length : Rat) - 1) ≠ 0 := div_ne_zero hvar hn1
+  unfold betaOf
+  simp only [hc1, hc2, soft, hne, if_false]
+  congr 2
+  field_simp
+
+/-- with fewer than two returns (`np.cov` answers nan) or a benchmark of zero variance beta is nan/inf -/
+theorem Metrics.betaOf_degenerate (p b : List Rat) (hlen : p.length = b.length) (h : b.length ≤ 1 ∨ devProd b b = 0) :
+    betaOf p b = .ok none := by
+  by_cases h1 : b.length ≤ 1
+  · have hc1 : cov p b = .error .nonfinite := by
+      unfold cov; rw [if_neg (by simp [hlen]), if_pos (by omega)]
+    have hc2 : cov b b = .error .nonfinite := by
+      unfold cov; rw [if_neg (by simp), if_pos h1]
+    simp only [betaOf, hc1, hc2, soft]
+  · have h0 : devProd b b = 0 := by
+      rcases h with h | h
+      · exact absurd h h1
+      · exact h
+    have hc1 : cov p b = .ok (devProd p b / ((b.length : Rat) - 1)) := by
+      unfold cov; rw [if_neg (by simp [hlen]), if_neg (by omega), hlen]
+    have hc2 : cov b b = .ok 0 := by
+      unfold cov; rw [if_neg (by simp), if_neg h1, h0, zero_div]
+    simp only [betaOf, hc1, hc2, soft, if_true]
+
+/-- the shape of `alpha_beta` on two positive series of equal length: `(alphaOf APR_p APR_b beta, beta)` with
+    `beta = betaOf` of the two multiple series and the APRs by end points, each a value of its own -/
+theorem Metrics.alphaBeta_pos (o : Orc) (duration x y : Rat) (r t : List Rat)
+    (hp : AllPos (x :: r)) (hb : AllPos (y :: t)) (hlen : r.length = t.length) (hd : duration ≠ 0) (beta : Val)
+    (hbeta : betaOf (multiplesFrom x r) (multiplesFrom y t) = .ok beta) :
+    ∃ pa ba, soft (compoundOf o duration (lastOf (x :: r) / x)) = .ok pa ∧
+      soft (compoundOf o duration (lastOf (y :: t) / y)) = .ok ba ∧
+      alphaBeta o (x :: r) (y :: t) duration = .ok (alphaOf pa ba beta, beta) := by
+  have hsome1 := allSome_ratiosFrom x r hp
+  have hsome2 := allSome_ratiosFrom y t hb
+  have hlr : (ratiosFrom x r).length = (ratiosFrom y t).length := by
+    rw [allSome_length _ _ hsome1, allSome_length _ _ hsome2, length_multiplesFrom, length_multiplesFrom, hlen]
+  have hsoft : ∀ base : Rat, ∃ v, soft (compoundOf o duration base) = .ok v := by
+    intro base
+    unfold compoundOf
+    rw [if_neg hd]
+    cases o.pow base (daysPerYear / duration) with
+    | none => exact ⟨none, rfl⟩
+    | some v => exact ⟨some (v - 1), rfl⟩
+  obtain ⟨pa, hpa⟩ := hsoft (lastOf (x :: r) / x)
+  obtain ⟨ba, hba⟩ := hsoft (lastOf (y :: t) / y)
+  refine ⟨pa, ba, hpa, hba, ?_⟩
+  unfold alphaBeta
+  simp only [shiftRatios, hlr, ne_eq, not_true_eq_false, if_false, hd, hsome1, hsome2, hbeta,
+    annualized_of_multiples o duration x r hp, annualized_of_multiples o duration y t hb, hpa, hba]
+
 /-- **beta = Σ(p − p̄)(b − b̄) / Σ(b − b̄)²** over the two return series (the `n − 1` of `np.cov` cancels) and
     **alpha = APR(portfolio) − beta · APR(benchmark)**, both APRs by end points -/
 theorem C20_alpha_beta_formula (o : Orc) (duration x y : Rat) (r t : List Rat)
@@ -181,52 +256,49 @@ theorem C20_alpha_beta_formula (o : Orc) (duration x y : Rat) (r t : List Rat)
     (hba : o.pow (lastOf (y :: t) / y) (365 / duration) = some ba)
     (hvar : devProd (multiplesFrom y t) (multiplesFrom y t) ≠ 0) :
     let beta := devProd (multiplesFrom x r) (multiplesFrom y t) / devProd (multiplesFrom y t) (multiplesFrom y t)
-    alphaBeta o (x :: r) (y :: t) duration = .ok ((pa - 1) - beta * (ba - 1), beta) := by
+    alphaBeta o (x :: r) (y :: t) duration = .ok (some ((pa - 1) - beta * (ba - 1)), some beta) := by
   intro beta
-  have hl1 : (multiplesFrom x r).length = r.length := length_multiplesFrom x r
-  have hl2 : (multiplesFrom y t).length = t.length := length_multiplesFrom y t
-  have hn1 : ((t.length : Rat) - 1) ≠ 0 := by
-    have : (2 : Rat) ≤ (t.length : Rat) := by exact_mod_cast (hlen ▸ hn)
-    intro h; linarith
-  have hsome1 := allSome_ratiosFrom x r hp
-  have hsome2 := allSome_ratiosFrom y t hb
-  have hlr : (ratiosFrom x r).length = (ratiosFrom y t).length := by
-    have a1 : ∀ (l : List (Option Rat)) (m : List Rat), allSome l = some m → l.length = m.length := by
-      intro l
-      induction l with
-      | nil => intro m h; simp [allSome] at h; subst h; rfl
-      | cons a l ih =>
-        intro m h
-        cases a with
-        | none => simp [allSome] at h
-        | some a =>
-          simp only [allSome, Option.map_eq_some_iff] at h
-          obtain ⟨m', hm', rfl⟩ := h
-          simp [ih m' hm']
-    rw [a1 _ _ hsome1, a1 _ _ hsome2, hl1, hl2, hlen]
-  unfold alphaBeta
-  simp only [shiftRatios, hlr, ne_eq, not_true_eq_false, if_false, hd, hsome1, hsome2]
-  have hc1 : cov (multiplesFrom x r) (multiplesFrom y t) =
-      .ok (devProd (multiplesFrom x r) (multiplesFrom y t) / ((t.length : Rat) - 1)) := by
-    unfold cov
-    rw [if_neg (by rw [hl1, hl2]; simp [hlen]), if_neg (by rw [hl1]; omega), hl1, hlen]
-  have hc2 : cov (multiplesFrom y t) (multiplesFrom y t) =
-      .ok (devProd (multiplesFrom y t) (multiplesFrom y t) / ((t.length : Rat) - 1)) := by
-    unfold cov
-    rw [if_neg (by simp), if_neg (by rw [hl2]; omega), hl2]
-  have hne : devProd (multiplesFrom y t) (multiplesFrom y t) / ((t.length : Rat) - 1) ≠ 0 := div_ne_zero hvar hn1
-  have hbeta : devProd (multiplesFrom x r) (multiplesFrom y t) / ((t.length : Rat) - 1) /
-      (devProd (multiplesFrom y t) (multiplesFrom y t) / ((t.length : Rat) - 1)) = beta := by
-    show _ = devProd (multiplesFrom x r) (multiplesFrom y t) / devProd (multiplesFrom y t) (multiplesFrom y t)
-    field_simp
-  simp only [hc1, hc2, hne, if_false, annualized_of_multiples o duration x r hp, annualized_of_multiples o duration y t hb,
-    compoundOf, hd, C20_days_per_year_pinned.1, hpa, hba, hbeta]
+  have hbeta := betaOf_formula (multiplesFrom x r) (multiplesFrom y t)
+    (by rw [length_multiplesFrom, length_multiplesFrom, hlen]) (by rw [length_multiplesFrom]; omega) hvar
+  obtain ⟨pa', ba', h1, h2, h3⟩ := alphaBeta_pos o duration x y r t hp hb hlen hd _ hbeta
+  simp only [compoundOf, hd, if_false, C20_days_per_year_pinned.1, hpa, hba, soft, Except.ok.injEq] at h1 h2
+  rw [h3, ← h1, ← h2]
+  rfl
+
+/-- **beta is computed before, and independently of, the two APRs**: whatever `pow` answers — finite or overflowing to
+    inf (`none`) — beta of two positive series with a non-constant benchmark is the covariance ratio; alpha is finite
+    exactly when both APRs are, and nan/inf otherwise (the code returns `(inf, beta)`, not `(nan, nan)`) -/
+theorem C20_beta_independent_of_apr (o : Orc) (duration x y : Rat) (r t : List Rat)
+    (hp : AllPos (x :: r)) (hb : AllPos (y :: t)) (hlen : r.length = t.length) (hn : 2 ≤ r.length)
+    (hd : duration ≠ 0) (hvar : devProd (multiplesFrom y t) (multiplesFrom y t) ≠ 0) :
+    ∃ alpha : Val, alphaBeta o (x :: r) (y :: t) duration =
+        .ok (alpha, some (devProd (multiplesFrom x r) (multiplesFrom y t) / devProd (multiplesFrom y t) (multiplesFrom y t))) ∧
+      (alpha.isSome ↔ (o.pow (lastOf (x :: r) / x) (365 / duration)).isSome ∧
+                      (o.pow (lastOf (y :: t) / y) (365 / duration)).isSome) := by
+  have hbeta := betaOf_formula (multiplesFrom x r) (multiplesFrom y t)
+    (by rw [length_multiplesFrom, length_multiplesFrom, hlen]) (by rw [length_multiplesFrom]; omega) hvar
+  obtain ⟨pa, ba, h1, h2, h3⟩ := alphaBeta_pos o duration x y r t hp hb hlen hd _ hbeta
+  refine ⟨_, h3, ?_⟩
+  simp only [compoundOf, hd, if_false, C20_days_per_year_pinned.1] at h1 h2
+  cases hpw : o.pow (lastOf (x :: r) / x) (365 / duration) <;> cases hbw : o.pow (lastOf (y :: t) / y) (365 / duration) <;>
+    simp only [hpw, hbw, soft, Except.ok.injEq] at h1 h2 <;> subst h1 <;> subst h2 <;> simp [alphaOf]
+
+/-- fewer than two returns or a constant benchmark: beta **and** alpha are nan/inf (never a silently wrong number) -/
+theorem C20_alpha_beta_degenerate (o : Orc) (duration x y : Rat) (r t : List Rat)
+    (hp : AllPos (x :: r)) (hb : AllPos (y :: t)) (hlen : r.length = t.length) (hd : duration ≠ 0)
+    (hdeg : r.length ≤ 1 ∨ devProd (multiplesFrom y t) (multiplesFrom y t) = 0) :
+    alphaBeta o (x :: r) (y :: t) duration = .ok (none, none) := by
+  have hbeta := betaOf_degenerate (multiplesFrom x r) (multiplesFrom y t)
+    (by rw [length_multiplesFrom, length_multiplesFrom, hlen]) (by rw [length_multiplesFrom, ← hlen]; exact hdeg)
+  obtain ⟨pa, ba, _, _, h3⟩ := alphaBeta_pos o duration x y r t hp hb hlen hd _ hbeta
+  rw [h3]
+  cases pa <;> cases ba <;> rfl
 
 /-- a portfolio measured against itself has beta 1 and alpha 0 -/
 theorem C20_beta_of_self (o : Orc) (duration x : Rat) (r : List Rat) (hp : AllPos (x :: r)) (hn : 2 ≤ r.length)
     (hd : duration ≠ 0) (pa : Rat) (hpa : o.pow (lastOf (x :: r) / x) (365 / duration) = some pa)
     (hvar : devProd (multiplesFrom x r) (multiplesFrom x r) ≠ 0) :
-    alphaBeta o (x :: r) (x :: r) duration = .ok (0, 1) := by
+    alphaBeta o (x :: r) (x :: r) duration = .ok (some 0, some 1) := by
   have h := C20_alpha_beta_formula o duration x x r r hp hp rfl hn hd pa pa hpa hpa hvar
   simp only [div_self hvar, one_mul, sub_self] at h
   exact h
@@ -318,6 +390,9 @@ theorem C20_ratio_metrics_scale_invariant (o : Orc) (interval duration c c' : Ra
 example : sampleVar [1, 2, 4] = .ok (7/3) ∧ cov [1, 2, 4] [1, 3, 2] = .ok (1/2) := by decide +kernel
 example : sampleVar [1] = .error .nonfinite := by decide +kernel
 example : devProd (multiplesFrom 1 [2, 3, 6]) (multiplesFrom 1 [2, 3, 6]) ≠ 0 := by decide +kernel
-example : alphaBeta ⟨fun b _ => some b, fun _ => none⟩ [1, 2, 3, 6] [1, 2, 3, 6] 365 = .ok (0, 1) := by decide +kernel
+example : alphaBeta ⟨fun b _ => some b, fun _ => none⟩ [1, 2, 3, 6] [1, 2, 3, 6] 365 = .ok (some 0, some 1) := by decide +kernel
+-- an overflowing APR (`pow` answers inf) leaves beta finite: the hypotheses of `C20_beta_independent_of_apr` with `pow = none`
+example : alphaBeta ⟨fun _ _ => none, fun _ => none⟩ [1, 2, 3, 6] [1, 2, 3, 5] 365 = .ok (none, some (6/7)) := by decide +kernel
+example : alphaBeta ⟨fun b _ => some b, fun _ => none⟩ [1, 2, 3, 6] [1, 2, 4, 8] 365 = .ok (none, none) := by decide +kernel
 
 end Demeter
